@@ -570,7 +570,7 @@ def minimal_instance(pat):
 def classes(case, exp):
     cl = ["api:" + case["api"], "pos:" + case["pos"], "chain-steps:%d" % (len(exp["chain"]) - 1), "terminal:%s" % exp["terminal"]]
     for i in exp["infos"]:
-        cl.append("step:" + i if i.startswith("core:") else "via:" + i.split(":")[2])
+        cl.append("step:" + i if i.startswith(("core:", "core-shadow:")) else "via:" + i.split(":")[2])
         if not i.startswith("core:"):
             cl += ["ns:" + i.split(":")[0], "body:" + i.split(":")[1]]
     last = exp["chain"][-1]
@@ -649,6 +649,17 @@ def shard(ctx):
             for macros, f in (([], form), ([chain1], ["(", [["s", "m1"]]]), ([chain2, chain1], ["(", [["s", "m2"], ["i", 0]]])):
                 base = dict(macros=macros, req=False, macros_arg="none", module_as="object", form=f, modes=["read", "mixed"], mask=0b101010, flavor="enumerated")
                 one(base)
+
+    # operator macros with a #* argument: the documented fallback to the hy.pyops function is a macro-expansion step
+    for i, op in enumerate(sorted(R.SHADOW_OPS)):
+        if i % ctx.n != ctx.k:
+            continue
+        star = ["(", [["s", "unpack-iterable"], ["s", "xs"]]]
+        for form in (["(", [["s", op], star, ["i", 1]]], ["(", [["s", op], ["i", 2], star]]):
+            chain1 = dict(name="m1", ns="mod", pos=[], opt=[], rest=None, body=dict(k="tmpl", t=form))
+            chain2 = dict(name="m2", ns="mod", pos=["x"], opt=[], rest=None, body=dict(k="tmpl", t=["(", [["s", "m1"]]]))
+            for macros, f in (([], form), ([chain1], ["(", [["s", "m1"]]]), ([chain2, chain1], ["(", [["s", "m2"], ["i", 0]]])):
+                one(dict(macros=macros, req=False, macros_arg="none", module_as="object", form=f, modes=["read", "mixed"], mask=0b101010, flavor="enumerated-shadow"))
 
     # Hy's compiler recurses ~100 frames deep and back for every form; started from the ~60 frames Hypothesis is already
     # deep, that keeps crossing a 16 KB boundary of CPython 3.12's frame stack, and every crossing is an mmap/munmap pair
